@@ -133,10 +133,224 @@ def sorted_form(t: T) -> T:
     return rewrite(t, _sorted)
 
 
+_CONSUMERS = {"list", "sorted", "tuple", "set", "frozenset", "any", "all", "sum", "min", "max"}
+CHAIN_PLAIN = T("global", ("itertools.chain",))
+
+
+def _as_list(x: T) -> T:
+    if x.op == "comp" and x.a[0] == "gen":
+        return T("comp", ("list",) + tuple(x.a[1:]))
+    return x
+
+
+def _consumed(t: T) -> T:
+    """A generator expression handed directly to something that consumes it completely is the list of its items;
+    itertools.chain(a, b) consumed that way is a + b."""
+    if t.op != "call":
+        return t
+    f = t.a[0]
+    whole = (f.op == "builtin" and f.a[0] in _CONSUMERS) or f == CHAIN or \
+        (f.op == "attr" and f.a[1] == "join" and f.a[0].op == "const")
+    if f == CHAIN_PLAIN and t.a[1] and not t.a[2]:
+        parts = [_as_list(x) for x in t.a[1]]
+        if all(p.op in ("comp", "list") for p in parts):
+            acc = parts[0]
+            for p_ in parts[1:]:
+                acc = T("bin", ("+", acc, p_))
+            return acc
+        return t
+    if whole and t.a[1]:
+        first = _as_list(t.a[1][0])
+        if first is not t.a[1][0]:
+            return T("call", (f, (first,) + tuple(t.a[1][1:]), t.a[2]))
+    return t
+
+
+def consumed_generators(t: T) -> T:
+    return rewrite(t, _consumed)
+
+
+def _gate_split(t: T) -> T:
+    """ite(c1 and c2, X, None)  ->  ite(c1, ite(c2, X, None), None)"""
+    if t.op == "ite" and t.a[2] == NONE and t.a[0].op == "bool" and t.a[0].a[0] == "and" and len(t.a[0].a[1]) >= 2:
+        cs = t.a[0].a[1]
+        inner = t.a[1]
+        for c in reversed(cs):
+            inner = T("ite", (c, inner, NONE))
+        return inner
+    return t
+
+
 def normalise(rec, t: Optional[T]) -> Optional[T]:
     if t is None:
         return None
     t = accum_to_comp(rec, t)
+    t = consumed_generators(t)
     t = fuse_comps(t)
     t = sorted_form(t)
-    return none_last(t)
+    t = none_last(t)
+    return rewrite(t, _gate_split)
+
+
+# ------------------------------------------------------------------ signed / narrowed views of a machine word
+_CT = {"ctypes.c_int8": (8, True), "ctypes.c_int16": (16, True), "ctypes.c_int32": (32, True), "ctypes.c_int64": (64, True),
+       "ctypes.c_uint8": (8, False), "ctypes.c_uint16": (16, False), "ctypes.c_uint32": (32, False),
+       "ctypes.c_uint64": (64, False), "ctypes.c_long": (64, True), "ctypes.c_ulong": (64, False),
+       "ctypes.c_longlong": (64, True), "ctypes.c_ulonglong": (64, False), "ctypes.c_int": (32, True),
+       "ctypes.c_uint": (32, False), "ctypes.c_short": (16, True), "ctypes.c_ushort": (16, False),
+       "ctypes.c_byte": (8, True), "ctypes.c_ubyte": (8, False), "ctypes.c_ssize_t": (64, True), "ctypes.c_size_t": (64, False)}
+
+
+def _ci(t: T):
+    return t.a[0] if t.op == "const" and isinstance(t.a[0], int) and not isinstance(t.a[0], bool) else None
+
+
+def _masked(t: T):
+    """x & (2**w - 1)  ->  (x, w);  anything else -> (t, 64)  (the record's words are unsigned 64-bit integers)."""
+    if t.op == "bin" and t.a[0] == "&":
+        for x, m in ((t.a[1], t.a[2]), (t.a[2], t.a[1])):
+            c = _ci(m)
+            if c is not None and c > 0 and (c & (c + 1)) == 0:
+                return x, c.bit_length()
+    return t, 64
+
+
+def view_of_word(t: T):
+    """If ``t`` is a fixed-width reinterpretation of an integer x, return (x, width, signed); else None.
+
+    Recognised spellings: ctypes.c_(u)intNN(x).value;  x & (2**w-1);  the two's-complement idioms
+    ``A - 2**w if <sign bit of A> else A`` (any orientation, sign test by shift, mask or comparison),
+    ``(A ^ 2**(w-1)) - 2**(w-1)``, ``(A + 2**(w-1)) % 2**w - 2**(w-1)`` with A = x & (2**w-1) (A = x when w = 64);
+    ``int.from_bytes(x.to_bytes(n, o), o, signed=True)``."""
+    if t.op == "attr" and t.a[1] == "value" and t.a[0].op == "call" and t.a[0].a[0].op == "global" \
+            and t.a[0].a[0].a[0] in _CT and len(t.a[0].a[1]) == 1 and not t.a[0].a[2]:
+        w, s = _CT[t.a[0].a[0].a[0]]
+        return t.a[0].a[1][0], w, s
+    if t.op == "ite":
+        c, a, b = t.a
+        # orient so that `a` is the negative branch (A - 2**w) and `b` is A
+        for cond, neg_b, pos_b, pol in ((c, a, b, True), (c, b, a, False)):
+            if neg_b.op == "bin" and neg_b.a[0] == "-" and neg_b.a[1] == pos_b:
+                k = _ci(neg_b.a[2])
+                x, w = _masked(pos_b)
+                if k is None or k != 1 << w:
+                    continue
+                if _sign_test(cond, pos_b, w) is pol:
+                    return x, w, True
+    if t.op == "bin" and t.a[0] == "-":
+        k = _ci(t.a[2])
+        l = t.a[1]
+        if k is not None and k > 0 and (k & (k - 1)) == 0:
+            w = k.bit_length()           # k = 2**(w-1)
+            if l.op == "bin" and l.a[0] == "^" and _ci(l.a[2]) == k:
+                x, mw = _masked(l.a[1])
+                if mw == w:
+                    return x, w, True
+            if l.op == "bin" and l.a[0] == "%" and _ci(l.a[2]) == 1 << w and l.a[1].op == "bin" and l.a[1].a[0] == "+" \
+                    and _ci(l.a[1].a[2]) == k:
+                x, mw = _masked(l.a[1].a[1])
+                if mw >= w:
+                    return x, w, True
+    if t.op == "call" and t.a[0].op == "attr" and t.a[0].a[1] == "from_bytes" and t.a[0].a[0] == T("builtin", ("int",)) \
+            and len(t.a[1]) >= 2 and dict(t.a[2]).get("signed") == const(True):
+        src = t.a[1][0]
+        if src.op == "call" and src.a[0].op == "attr" and src.a[0].a[1] == "to_bytes" and len(src.a[1]) >= 2 \
+                and src.a[1][1] == t.a[1][1]:
+            n = _ci(src.a[1][0])
+            if n:
+                return src.a[0].a[0], 8 * n, True
+    x, w = _masked(t)
+    if w < 64:
+        return x, w, False
+    return None
+
+
+def _sign_test(cond: T, A: T, w: int):
+    """True if cond <=> (bit w-1 of A is set), False if cond <=> it is clear, None otherwise."""
+    pol = True
+    while cond.op == "not":
+        cond, pol = cond.a[0], not pol
+    if cond.op == "bin" and cond.a[0] == ">>" and cond.a[1] == A and _ci(cond.a[2]) == w - 1:
+        return pol
+    if cond.op == "bin" and cond.a[0] == "&":
+        for x, m in ((cond.a[1], cond.a[2]), (cond.a[2], cond.a[1])):
+            if x == A and _ci(m) == 1 << (w - 1):
+                return pol
+    if cond.op == "cmp" and cond.a[1] == A:
+        k = _ci(cond.a[2])
+        if k is not None:
+            if (cond.a[0], k) in ((">=", 1 << (w - 1)), (">", (1 << (w - 1)) - 1)):
+                return pol
+            if (cond.a[0], k) in (("<", 1 << (w - 1)), ("<=", (1 << (w - 1)) - 1)):
+                return not pol
+    return None
+
+
+# ------------------------------------------------------------------ propositional equivalence of conditions
+def _atoms_of(c: T, out: list) -> None:
+    if c.op == "not":
+        _atoms_of(c.a[0], out)
+    elif c.op == "bool":
+        for x in c.a[1]:
+            _atoms_of(x, out)
+    elif c.op == "ite":
+        for x in c.a:
+            _atoms_of(x, out)
+    elif c.op == "cmp" and c.a[0] in ("!=", "not in", "is not"):
+        _atoms_of(T("cmp", (_FLIP[c.a[0]], c.a[1], c.a[2])), out)
+    elif c.op == "const":
+        pass
+    elif c not in out:
+        out.append(c)
+
+
+def _truth(c: T, val: Dict[T, bool]) -> bool:
+    if c.op == "const":
+        return bool(c.a[0])
+    if c.op == "not":
+        return not _truth(c.a[0], val)
+    if c.op == "bool":
+        vs = [_truth(x, val) for x in c.a[1]]
+        return all(vs) if c.a[0] == "and" else any(vs)
+    if c.op == "ite":
+        return _truth(c.a[1], val) if _truth(c.a[0], val) else _truth(c.a[2], val)
+    if c.op == "cmp" and c.a[0] in ("!=", "not in", "is not"):
+        return not val[T("cmp", (_FLIP[c.a[0]], c.a[1], c.a[2]))]
+    return val[c]
+
+
+def bool_equiv(a: T, b: T, max_atoms: int = 10) -> Optional[bool]:
+    """Are two conditions equal as truth values for every assignment of their atoms (maximal non-boolean sub-terms)?
+    None when there are too many atoms.  Atoms are treated as independent, so True is sound ("equivalent") while False
+    may only mean "not shown equivalent"."""
+    atoms: list = []
+    _atoms_of(a, atoms)
+    _atoms_of(b, atoms)
+    if len(atoms) > max_atoms:
+        return None
+    for bits in range(1 << len(atoms)):
+        val = {x: bool(bits >> i & 1) for i, x in enumerate(atoms)}
+        if _truth(a, val) != _truth(b, val):
+            return False
+    return True
+
+
+def guarded_leaves(t: T, pc: tuple = ()):
+    """Flatten nested conditionals: [(conditions ((term, polarity), ...), leaf term)]."""
+    if t.op == "ite":
+        return guarded_leaves(t.a[1], pc + ((t.a[0], True),)) + guarded_leaves(t.a[2], pc + ((t.a[0], False),))
+    return [(pc, t)]
+
+
+def pc_term(pc: tuple) -> T:
+    parts = tuple(c if p else T("not", (c,)) for c, p in pc)
+    if not parts:
+        return const(True)
+    return parts[0] if len(parts) == 1 else T("bool", ("and", parts))
+
+
+def any_of(terms) -> T:
+    terms = tuple(terms)
+    if not terms:
+        return const(False)
+    return terms[0] if len(terms) == 1 else T("bool", ("or", terms))
